@@ -345,11 +345,13 @@ def malformed(sink):
     for cls in U.BAD_CLASSES:
         if cls is U.BadRaises:
             continue
-        for wrap in ('root', 'nested'):
-            bad = cls([optree.treespec_leaf(), optree.treespec_leaf()])
-            t = bad if wrap == 'root' else [bad]
+        for wrap in ('root', 'nested', 'root/0-children', 'nested/0-children'):
+            if wrap.endswith('0-children') and cls is U.BadEntriesShort:
+                continue  # with no children "one entry too few" is not expressible
+            bad = cls([] if wrap.endswith('0-children') else [optree.treespec_leaf(), optree.treespec_leaf()])
+            t = bad if wrap.startswith('root') else [bad]
             for name, fn in calls.items():
-                if name in ('treespec_from_collection', 'tree_flatten_one_level') and wrap == 'nested':
+                if name in ('treespec_from_collection', 'tree_flatten_one_level') and wrap.startswith('nested'):
                     continue
                 try:
                     fn(t)
